@@ -50,6 +50,11 @@ package libp2pwebtransport
 //@ ensures result == nil && ret(Now, 0, 0) >= V + S ==>
 //@         m.nextConfig.Start() == m.currentConfig.End() - 2*S && m.nextConfig.End() == m.nextConfig.Start() + V
 //@ ensures result == nil && ret(Now, 0, 0) >= V + S ==> fmod(m.currentConfig.Start(), SEC) == 0
+// a (re)started listener also knows the certificate of the PREVIOUS period (certificates are a function of host key and
+// bucket), so that the hashes it confirms cover an address learned before the restart: "an address learned at any time
+// keeps verifying through the current and the following certificate period", "every restart at an arbitrary later instant"
+//@ ensures result == nil && ret(Now, 0, 0) >= 2*V ==> m.lastConfig != nil && m.lastConfig.End() - 2*S == m.currentConfig.Start() &&
+//@         m.lastConfig.End() == m.lastConfig.Start() + V
 //@ modifies m.lastConfig, m.currentConfig, m.nextConfig, m.serializedCertHashes, m.addrComp, elems(m.serializedCertHashes)
 
 //@ func verifyRawCerts
@@ -115,4 +120,23 @@ package libp2pwebtransport
 //@ noframe
 //@ closure 0
 //@ ensures called(verifyRawCerts, 0) && arg(verifyRawCerts, 0, 0) == rawCerts && arg(verifyRawCerts, 0, 1) == certHashes && result == ret(verifyRawCerts, 0, 0)
+//@ noframe
+
+// the certificate served to a client is the cert manager's CURRENT one at the time of that ClientHello (not a
+// configuration captured when the listener was created): a listener that stays up across a rollover serves the
+// rolled certificate
+//@ func (t *transport) Listen
+//@ prop C18
+//@ opaque IsWebtransportMultiaddr, newCertManager
+//@ callsite ListenQUICAndAssociate#0 requires old(t.staticTLSConf) == nil ==> arg3 != nil && arg3.GetConfigForClient == closure(1)
+//@ noframe
+//@ closure 1
+//@ ensures ncalls(GetConfig, 0) == 1 && arg(GetConfig, 0, 0) == t.certManager && result0 == ret(GetConfig, 0, 0) && result1 == nil
+//@ noframe
+
+// the hashes confirmed to a dialer are the cert manager's current list, fetched during this very handshake
+//@ func (l *listener) handshake
+//@ prop C18
+//@ callsite newEarlyDataSender#0 requires !l.isStaticTLSConf ==> ncalls(SerializedCertHashes, 0) == 1 &&
+//@         arg(SerializedCertHashes, 0, 0) == l.transport.certManager && arg0.WebtransportCerthashes == ret(SerializedCertHashes, 0, 0)
 //@ noframe
